@@ -268,6 +268,20 @@ def main(argv=None):
             r["graph2"] = graph2
         records.append(r)
 
+    # warm the process: word groups, mappings and blocks of many shapes created at non-zero offsets
+    # in throw-away formulas, so that nothing a family builds may depend on what the process did before
+    for cls in (cnfgen.CNF, OPB):
+        for off in (7, 3):
+            for n in range(2, 21):
+                W = cls()
+                W.update_variable_number(off)
+                W.new_combinations(n, 2)
+                W.new_permutations(n, 2)
+                if n <= 6:
+                    W.new_combinations(n, 3)
+                    W.new_words(n, 2)
+                W.new_mapping(n, 3)
+                W.new_block(n, 2)
     fams = families(ck)
     bases = []
     for rid, fam, par, graph, graph2, fn in fams:
@@ -280,11 +294,17 @@ def main(argv=None):
                     bases.append((rid, fam, par, graph, graph2, F))
             except Exception as e:
                 emit("%s-%s" % (rid, cname), fam, par, graph, graph2, [], None, type(e).__name__)
+    # formulas whose last variables occur in no clause
+    for t, (k, n, m) in enumerate(((3, 30, 5), (2, 25, 4), (3, 40, 8))):
+        Fu = cnfgen.RandomKCNF(k, n, m, seed=ck.seed + t)
+        emit("unused-%d-CNF" % t, "none", {"n0": n}, None, None, [], Fu, "ok")
+        bases.append(("unused-%d" % t, "none", {"n0": n}, None, None, Fu))
     # transformations and chains of two on a few base formulas
     small = [b for b in bases if b[5].number_of_variables() <= 60 and len(b[5]) <= 150
              and max([len(c) for c in b[5].clauses()] or [0]) <= 4]
     ck.rng.shuffle(small)
-    for rid, fam, par, graph, graph2, F in small[: (4 if ck.quick else 12)]:
+    small = [b for b in small if b[0].startswith("unused-")] + [b for b in small if not b[0].startswith("unused-")]
+    for rid, fam, par, graph, graph2, F in small[: (6 if ck.quick else 14)]:
         for kind, k, C in CHAIN_KINDS:
             def app(G, kind=kind, k=k, C=C):
                 return Shuffle(G) if kind == "shuffle" else c05.apply(kind, G, k, C, None)
